@@ -52,6 +52,13 @@ def plan(tier, seed):
         # a rate that is not a whole number (same float arithmetic in the reference), and for DRR a packet of more than two quanta
         cfgs.append(dict(sched=kind, table=tabs[0], rate=(2500.5 if kind == "DRR" else 2.5), flows=[0, 1],
                          sizes=([1000, 4000] if kind == "DRR" else [1, 2]), N=nfull, gaps="G3", order=0, map="id"))
+        # next hop is a kernel Store; a time axis scaled by 2^-30 (Gbit/s rates, nanosecond gaps); a float-typed size
+        cfgs.append(dict(sched=kind, table=tabs[0], rate=(8000 if kind == "DRR" else 8), flows=[0, 1],
+                         sizes=([1000, 2000] if kind == "DRR" else [1, 2]), N=nfull, gaps="G3", order=0, map="id", mailbox=1))
+        cfgs.append(dict(sched=kind, table=tabs[0], rate=(8000 if kind == "DRR" else 8) * 2 ** 30, flows=[0, 1],
+                         sizes=([1000, 2000] if kind == "DRR" else [1, 2]), N=nfull, gaps="G3", order=0, map="id", scale=2.0 ** -30))
+        cfgs.append(dict(sched=kind, table=tabs[0], rate=(8000 if kind == "DRR" else 8), flows=[0, 1],
+                         sizes=([1000, 2000.0] if kind == "DRR" else [1, 2.0]), N=nfull, gaps=["S", 1], order=0, map="id"))
         # two instances of the scheduler in one program (class-level or module-level state would couple them)
         cfgs.append(dict(sched=kind, table=tabs[0], rate=(8000 if kind == "DRR" else 8), flows=[0, 1],
                          sizes=([2000, 4000] if kind == "DRR" else [1, 2]), N=nfull, gaps="G3", order=0, map="id", twin=1))
@@ -61,6 +68,8 @@ def plan(tier, seed):
                              sizes=([1000, 2000] if kind == "DRR" else [1, 2]), N=nfull, gaps="G5", order=0, map="one"))
             cfgs.append(dict(sched=kind, table=[[0, 1], [1, 2]], rate=(8000 if kind == "DRR" else 8), flows=[0, 1],
                              sizes=([1000, 2000] if kind == "DRR" else [1, 2]), N=nfull, gaps="G3", order=0, map="swap"))
+            cfgs.append(dict(sched=kind, table=[[1000, 1], [1001, 2]], rate=(8000 if kind == "DRR" else 8), flows=[0, 1],
+                             sizes=([1000, 2000] if kind == "DRR" else [1, 2]), N=nfull, gaps="G3", order=0, map="big"))
         if not quick:
             cfgs.append(dict(sched=kind, table=[[0, 1], [1, 2], [2, 1]], rate=(8000 if kind == "DRR" else 8),
                              flows=[0, 1, 2], sizes=([1000, 2000] if kind == "DRR" else [1, 2]), N=4, gaps="G3",
